@@ -65,7 +65,8 @@ fn main() {
                 seed,
                 threads,
                 as_c18: false,
-                release: !cfg!(debug_assertions),
+                // the panic=abort build runs the debug-sized workloads (optimised)
+                release: !cfg!(debug_assertions) && !cfg!(panic = "abort"),
                 secondary,
             };
             let t0 = Instant::now();
